@@ -705,6 +705,10 @@ func (c *Ctx) heapEpochConst(base int, key string) Term {
 
 // heapWF asserts type invariants of every cell of a heap array (Int mode ranges, slice shapes).
 func (c *Ctx) heapWF(h Term, info heapInfo) {
+	if strings.HasPrefix(h.S, "H") && strings.Contains(h.S, ".ML_") && c.Mode == ArithInt {
+		// ghost cardinality of maps: never negative
+		c.decl("wfml:"+h.S, fmt.Sprintf("(assert (forall ((r Int)) (! (>= (select %s r) 0) :pattern ((select %s r)))))", h.S, h.S))
+	}
 	if info.ty == nil {
 		return
 	}
